@@ -1,13 +1,129 @@
 /-
-  Driver.OpsC08 — protocol operations for property C08 (filled in by the C08 work package).
-  Contract: `handleC08 op` returns the parser for operation `op` or `none` if `op` is not one of
-  this property's operations.
+  Driver.OpsC08 — protocol operations for property C08.
+
+  c08.chain  <fields> <k> { L <pp> <cps> | X <sd> }   k steps applied left to right
+             pp  := - | p <n> i…            point index map new→old (or none)
+             cps := - | c <t> { <type> <n> i… }   per-type cell index maps (or none)
+     → hyp=<every layer satisfies permHypB on its input> res=<fields|E> same=<0|1|->
+       pcont=<point content of the result> ccont=<cell content of the result>
+  c08.strip  <fields>
+     → hyp=<…> map=<filter map with the stable argsort|E> kept=<Spec.keptPoints> res=<fields|E>
+  c08.extend <sd> <fields>
+     → hyp=<wf> model=<fields|E> spec=<fields|E>
 -/
-import Driver.Proto
+import Driver.ProtoMesh
+import FcModel.Transform
+import FcModel.Extend
+import FcModel.Spec.C08
 namespace Fc.Drv
+open Fc
+
+def showInts (l : List Int) : String := ",".intercalate (l.map toString)
+def showNats (l : List Nat) : String := ",".intercalate (l.map toString)
+
+def showDT : DType → String
+  | .flt F => if F = f64 then "f64" else if F = f32 then "f32" else "f16"
+  | .int true b => s!"i{b}"
+  | .int false b => s!"u{b}"
+  | .str => "str"
+
+def showArr (a : NdArr) : String :=
+  s!"{showDT a.dtype}:{"x".intercalate (a.shape.map toString)}:{showInts a.data}"
+
+def showMesh (m : Mesh) : String :=
+  let pts := "/".intercalate (m.points.map showInts)
+  let cells := "|".intercalate (m.cells.map fun b => b.1 ++ ":" ++ "/".intercalate (b.2.map showNats))
+  s!"D{m.dim};P{pts};C{cells}"
+
+def showFields (f : MeshFields) : String :=
+  let pfs := "|".intercalate (f.pointFields.map fun pf => pf.name ++ ":" ++ showArr pf.values)
+  let cfs := "|".intercalate (f.cellFields.map fun cf => cf.name ++ ":" ++ cf.ctype ++ ":" ++ showArr cf.values)
+  s!"{showMesh f.mesh};PF{pfs};CF{cfs}"
+
+def showOptFields : Option MeshFields → String
+  | some f => showFields f
+  | none => "E"
+
+def showValues (vs : List (String × List Int)) : String :=
+  String.join (vs.map fun v => "#" ++ v.1 ++ "=" ++ showInts v.2)
+
+def showPointContent (l : List PointItem) : String :=
+  "|".intercalate (l.map fun it => showInts it.coords ++ showValues it.values)
+
+def showCellContent (l : List CellItem) : String :=
+  "|".intercalate (l.map fun it =>
+    it.ctype ++ "@" ++ "/".intercalate (it.corners.map showInts) ++ showValues it.values)
+
+def pOptPerm : P (Option (List Nat)) := do
+  let t ← tok
+  if t == "-" then pure none
+  else if t == "p" then do let l ← pList pNat; pure (some l)
+  else failure
+
+def pOptCellPerms : P (Option CellPerms) := do
+  let t ← tok
+  if t == "-" then pure none
+  else if t == "c" then do
+    let l ← pList (do let ct ← tok; let idx ← pList pNat; pure (ct, idx))
+    pure (some l)
+  else failure
+
+def pStep : P Step := do
+  let t ← tok
+  if t == "L" then do
+    let pp ← pOptPerm
+    let cp ← pOptCellPerms
+    pure (.layer pp cp)
+  else if t == "X" then do
+    let sd ← pNat
+    pure (.extend sd)
+  else failure
+
+/-- run the chain, and-ing the layer hypotheses evaluated on each intermediate data set -/
+def chainHyp : List Step → MeshFields → Bool
+  | [], _ => true
+  | s :: ss, f =>
+    (match s with
+     | .layer pp cp => permHypB f pp cp
+     | .extend _ => f.wf2) &&
+    (match applyStep s f with
+     | some f1 => chainHyp ss f1
+     | none => true)
+
+def hasExtend (ss : List Step) : Bool := ss.any fun s => match s with | .extend _ => true | _ => false
+
+def opChain : P String := do
+  let f ← pMeshFields
+  let steps ← pList pStep
+  let hyp := chainHyp steps f
+  let res := applySteps steps f
+  let same := match res with
+    | some g => if hasExtend steps then "-" else showBool (Spec.sameContent f g)
+    | none => "-"
+  let (pc, cc) := match res with
+    | some g => (showPointContent g.pointContent, showCellContent g.cellContent)
+    | none => ("E", "E")
+  pure s!"hyp={showBool hyp} res={showOptFields res} same={same} pcont={pc} ccont={cc}"
+
+def opStrip : P String := do
+  let f ← pMeshFields
+  let hyp := f.wf2
+  let map := match unconnectedFilterMap stableArgsortBool f.mesh with
+    | some l => showNats l
+    | none => "E"
+  let res := stripOrphanPoints stableArgsortBool f
+  pure s!"hyp={showBool hyp} map={map} kept={showNats (Spec.keptPoints f.mesh)} res={showOptFields res}"
+
+def opExtend : P String := do
+  let sd ← pNat
+  let f ← pMeshFields
+  pure s!"hyp={showBool f.wf2} model={showOptFields (extendSpaceDim sd f)} spec={showOptFields (Spec.extendSpec sd f)}"
 
 def handleC08 (op : String) : Option (P String) :=
   match op with
+  | "c08.chain" => some opChain
+  | "c08.strip" => some opStrip
+  | "c08.extend" => some opExtend
   | _ => none
 
 end Fc.Drv
